@@ -5,8 +5,6 @@ import (
 	"strconv"
 	"strings"
 
-	"golang.org/x/exp/slices"
-
 	"github.com/rs/zerolog/log"
 	"github.com/valyala/fastjson"
 )
@@ -155,25 +153,30 @@ func (obfuscator Obfuscator) obfuscateJSON(
 	return obfuscatedJSON, nil
 }
 
-// isCursorInExcludedPath checks if the given path segment should be excluded from obfuscation
-// usage only slices.Contains(excludedPaths, cursor) cannot work for JSONPath exclusions,
-// since it compares the whole string and works only for simple strings exclusions
+// isCursorInExcludedPath checks if the given cursor (the path of the value being visited,
+// e.g. ".user.name" or ".items[].id") is one of the excluded paths. Excluded paths are given
+// either in the same notation or as JSONPath body exclusions ("$.request.body.user.name"),
+// which are translated to the cursor notation first. The whole path is compared: an exclusion
+// must never match a different path that merely ends with the same segments.
 func isCursorInExcludedPath(cursor string, excludedPaths []string) bool {
-	// simple string comparison
-	if slices.Contains(excludedPaths, cursor) {
-		return true
-	}
-
-	// json path support
-	if cursor == "" {
-		return false
-	}
 	for _, path := range excludedPaths {
-		if strings.HasSuffix(path, cursor) {
+		if bodyPathOf(path) == cursor {
 			return true
 		}
 	}
 	return false
+}
+
+// bodyPathOf strips the JSONPath body prefix ("$.request.body", "$.response.body")
+// from an exclusion, leaving the path inside the body in cursor notation.
+func bodyPathOf(path string) string {
+	for _, prefix := range []string{"$.request.body", "$.response.body"} {
+		rest, found := strings.CutPrefix(path, prefix)
+		if found && (rest == "" || rest[0] == '.' || rest[0] == '[') {
+			return rest
+		}
+	}
+	return path
 }
 
 func getKeys(object *fastjson.Object) []string {
